@@ -22,6 +22,9 @@ def DataFrame_to_list_of_dicts_decorators : List String := []
 /-- the signature of dataiter/data_frame.py: DataFrame.to_list_of_dicts: parameters in order, with the source text of their defaults -/
 def DataFrame_to_list_of_dicts_signature : List String := ["self"]
 
+/-- the calls of dataiter/data_frame.py: DataFrame.to_list_of_dicts in the order Python makes them along the source text -/
+def DataFrame_to_list_of_dicts_call_order : List String := ["range", "self[colname].tolist", "enumerate", "ListOfDicts"]
+
 /-- dataiter/data_frame.py: DataFrame.to_json (sha256 of the function source: 70a691eed957f53a) -/
 def DataFrame_to_json (truth : Term → Bool) : Out :=
   Out.ret [] (Term.app ".to_json" [(Term.app ".to_list_of_dicts" [(Term.sym "self")]), (Term.app "=**" [(Term.sym "kwargs")])])
@@ -32,6 +35,9 @@ def DataFrame_to_json_decorators : List String := []
 /-- the signature of dataiter/data_frame.py: DataFrame.to_json: parameters in order, with the source text of their defaults -/
 def DataFrame_to_json_signature : List String := ["self", "**kwargs"]
 
+/-- the calls of dataiter/data_frame.py: DataFrame.to_json in the order Python makes them along the source text -/
+def DataFrame_to_json_call_order : List String := ["self.to_list_of_dicts", "self.to_list_of_dicts().to_json"]
+
 /-- dataiter/data_frame.py: DataFrame.to_pandas (sha256 of the function source: c6c79ba21785c2a9) -/
 def DataFrame_to_pandas (truth : Term → Bool) : Out :=
   Out.ret [] (Term.app "pd.DataFrame" [(Term.app "DictComp" [(Term.app "pair" [(Term.sym "x"), (Term.app ".tolist" [(Term.app "getitem" [(Term.sym "self"), (Term.sym "x")])])]), (Term.app "in" [(Term.sym "x"), (Term.app ".colnames" [(Term.sym "self")]), (Term.app "if" [])])])])
@@ -41,6 +47,9 @@ def DataFrame_to_pandas_decorators : List String := []
 
 /-- the signature of dataiter/data_frame.py: DataFrame.to_pandas: parameters in order, with the source text of their defaults -/
 def DataFrame_to_pandas_signature : List String := ["self"]
+
+/-- the calls of dataiter/data_frame.py: DataFrame.to_pandas in the order Python makes them along the source text -/
+def DataFrame_to_pandas_call_order : List String := ["self[x].tolist", "pd.DataFrame"]
 
 /-- dataiter/data_frame.py: DataFrame.from_pandas (sha256 of the function source: 3effac14cf381913) -/
 def DataFrame_from_pandas (truth : Term → Bool) : Out :=
@@ -56,6 +65,9 @@ def DataFrame_from_pandas_decorators : List String := ["classmethod", "deco.new_
 /-- the signature of dataiter/data_frame.py: DataFrame.from_pandas: parameters in order, with the source text of their defaults -/
 def DataFrame_from_pandas_signature : List String := ["cls", "data", "*", "dtypes={}"]
 
+/-- the calls of dataiter/data_frame.py: DataFrame.from_pandas in the order Python makes them along the source text -/
+def DataFrame_from_pandas_call_order : List String := ["dtypes.get", "data[name].isna", "data[name].isna().to_numpy", "data[name].to_numpy", "np.issubdtype", "np.dtype", "np.dtype", "column.tolist", "DataFrameColumn.fast", "na.any", "column.astype"]
+
 /-- dataiter/data_frame.py: DataFrame.to_arrow (sha256 of the function source: 17896240601b66d6) -/
 def DataFrame_to_arrow (truth : Term → Bool) : Out :=
   let data' : Term := (Term.app "ListComp" [(Term.app "pa.array" [(Term.app ".tolist" [(Term.app "getitem" [(Term.sym "self"), (Term.sym "x")])])]), (Term.app "in" [(Term.sym "x"), (Term.app ".colnames" [(Term.sym "self")]), (Term.app "if" [])])]);
@@ -66,6 +78,9 @@ def DataFrame_to_arrow_decorators : List String := []
 
 /-- the signature of dataiter/data_frame.py: DataFrame.to_arrow: parameters in order, with the source text of their defaults -/
 def DataFrame_to_arrow_signature : List String := ["self"]
+
+/-- the calls of dataiter/data_frame.py: DataFrame.to_arrow in the order Python makes them along the source text -/
+def DataFrame_to_arrow_call_order : List String := ["self[x].tolist", "pa.array", "pa.table"]
 
 /-- dataiter/data_frame.py: DataFrame.from_arrow (sha256 of the function source: 813efa0510a0d154) -/
 def DataFrame_from_arrow (truth : Term → Bool) : Out :=
@@ -81,6 +96,9 @@ def DataFrame_from_arrow_decorators : List String := ["classmethod", "deco.new_f
 /-- the signature of dataiter/data_frame.py: DataFrame.from_arrow: parameters in order, with the source text of their defaults -/
 def DataFrame_from_arrow_signature : List String := ["cls", "data", "*", "dtypes={}"]
 
+/-- the calls of dataiter/data_frame.py: DataFrame.from_arrow in the order Python makes them along the source text -/
+def DataFrame_from_arrow_call_order : List String := ["zip", "dtypes.get", "column.is_null", "column.is_null(nan_is_null=True).to_numpy", "column.to_numpy", "np.issubdtype", "np.dtype", "np.dtype", "column.tolist", "DataFrameColumn.fast", "na.any", "column.astype"]
+
 /-- dataiter/list_of_dicts.py: ListOfDicts.to_data_frame (sha256 of the function source: 6056b7e29cffb98d) -/
 def ListOfDicts_to_data_frame (truth : Term → Bool) : Out :=
   let data' : Term := (Term.app "._to_columns" [(Term.sym "self")]);
@@ -92,6 +110,9 @@ def ListOfDicts_to_data_frame_decorators : List String := []
 /-- the signature of dataiter/list_of_dicts.py: ListOfDicts.to_data_frame: parameters in order, with the source text of their defaults -/
 def ListOfDicts_to_data_frame_signature : List String := ["self"]
 
+/-- the calls of dataiter/list_of_dicts.py: ListOfDicts.to_data_frame in the order Python makes them along the source text -/
+def ListOfDicts_to_data_frame_call_order : List String := ["self._to_columns", "DataFrame"]
+
 /-- dataiter/list_of_dicts.py: ListOfDicts._to_columns (sha256 of the function source: b31a82caf1edeb0b) -/
 def ListOfDicts_to_columns (truth : Term → Bool) : Out :=
   Out.ret [] (if truth (Term.sym "self") then (Term.app "DictComp" [(Term.app "pair" [(Term.sym "k"), (Term.app ".pluck" [(Term.sym "self"), (Term.sym "k")])]), (Term.app "in" [(Term.sym "k"), (Term.app "getitem" [(Term.sym "self"), (Term.int (0 : Int))]), (Term.app "if" [])])]) else (Term.sym "{}"))
@@ -101,6 +122,9 @@ def ListOfDicts_to_columns_decorators : List String := []
 
 /-- the signature of dataiter/list_of_dicts.py: ListOfDicts._to_columns: parameters in order, with the source text of their defaults -/
 def ListOfDicts_to_columns_signature : List String := ["self"]
+
+/-- the calls of dataiter/list_of_dicts.py: ListOfDicts._to_columns in the order Python makes them along the source text -/
+def ListOfDicts_to_columns_call_order : List String := ["self.pluck"]
 
 /-- dataiter/list_of_dicts.py: ListOfDicts.to_json (sha256 of the function source: a84596184c97e3dd) -/
 def ListOfDicts_to_json (truth : Term → Bool) : Out :=
@@ -115,6 +139,9 @@ def ListOfDicts_to_json_decorators : List String := []
 /-- the signature of dataiter/list_of_dicts.py: ListOfDicts.to_json: parameters in order, with the source text of their defaults -/
 def ListOfDicts_to_json_signature : List String := ["self", "**kwargs"]
 
+/-- the calls of dataiter/list_of_dicts.py: ListOfDicts.to_json in the order Python makes them along the source text -/
+def ListOfDicts_to_json_call_order : List String := ["kwargs.setdefault", "kwargs.setdefault", "kwargs.setdefault", "json.dumps"]
+
 /-- dataiter/vector.py: Vector.tolist (sha256 of the function source: 6c6b05c5c3a558ee) -/
 def Vector_tolist13 (truth : Term → Bool) : Out :=
   Out.ret [] (Term.app ".tolist" [(Term.app "np.where" [(Term.app ".is_na" [(Term.sym "self")]), (Term.sym "None"), (Term.sym "self")])])
@@ -124,5 +151,8 @@ def Vector_tolist13_decorators : List String := []
 
 /-- the signature of dataiter/vector.py: Vector.tolist: parameters in order, with the source text of their defaults -/
 def Vector_tolist13_signature : List String := ["self"]
+
+/-- the calls of dataiter/vector.py: Vector.tolist in the order Python makes them along the source text -/
+def Vector_tolist13_call_order : List String := ["self.is_na", "np.where", "np.where(self.is_na(), None, self).tolist"]
 
 end DI.Gen
